@@ -1,4 +1,6 @@
 #![forbid(unsafe_code)]
+// Verification builds optimise this crate; rustc then needs a larger trait recursion limit for the warp filter tree.
+#![cfg_attr(undermoon_verif, recursion_limit = "512")]
 #![deny(
     clippy::panic,
     clippy::panic_in_result_fn,
